@@ -48,3 +48,47 @@ Proof.
   assert ((z <=? 9223372036854775807) = true) as -> by lia.
   assert ((z <=? 65535) = true) as -> by lia. reflexivity.
 Qed.
+
+(* ---- the whole-configuration validator ---- *)
+Lemma valid_config_iff : forall c, is_valid_config c = VOk true <-> config_ok c = true.
+Proof.
+  intro c. unfold is_valid_config, config_ok, SEED_LEN.
+  destruct c as [port ie sl kms b f w cs pd ap]; cbn [s_port s_interface_empty s_seed_len s_kms s_batch
+    s_fault s_workers s_client_stats s_pdir s_addr_parses].
+  destruct (port =? 0) eqn:E1; destruct ie; destruct (sl =? 0) eqn:E3; destruct kms;
+    destruct (sl =? 32) eqn:E4; destruct (sl <=? 32) eqn:E5;
+    destruct ((b <? 1) || (64 <? b)) eqn:E6; destruct (50 <? f) eqn:E7; destruct (w =? 0) eqn:E8;
+    destruct cs; try destruct pd as [[ex isd ro]|]; cbn [d_exists d_is_dir d_readonly];
+    try destruct ex; try destruct isd; try destruct ro; destruct ap; cbn [negb andb orb];
+    split; intro Hx; try discriminate Hx; try reflexivity; try lia.
+Qed.
+
+(* a panic happens exactly when per-client statistics are on and the configured directory does
+   not exist: start-up is refused then, too (the process dies before serving) *)
+Lemma valid_config_panic : forall c,
+  is_valid_config c = VPanic <->
+  (s_client_stats c = true /\ exists d, s_pdir c = Some d /\ d_exists d = false).
+Proof.
+  intro c. unfold is_valid_config.
+  destruct (s_client_stats c); [|split; [intro Hx; destruct (if s_port c =? 0 then false else true); repeat match goal with |- context [if ?x then _ else _] => destruct x end; discriminate Hx | intros [Hx _]; discriminate Hx]].
+  destruct (s_pdir c) as [d|].
+  - destruct (d_exists d) eqn:Ee; cbn [negb].
+    + split; [intro Hx; repeat match type of Hx with context [if ?x then _ else _] => destruct x end; discriminate Hx|].
+      intros [_ [d' [Hd He]]]. injection Hd as <-. rewrite Ee in He. discriminate He.
+    + split; [intros _; split; [reflexivity|exists d; split; [reflexivity|exact Ee]]|reflexivity].
+  - split; [intro Hx; discriminate Hx|]. intros [_ [d [Hd _]]]. discriminate Hd.
+Qed.
+
+(* no later check can restore validity once an earlier one failed: in particular a good
+   persistence directory does not excuse an out-of-range value *)
+Lemma valid_config_refuses : forall c,
+  (s_port c = 0 \/ s_batch c < 1 \/ 64 < s_batch c \/ 50 < s_fault c \/ s_workers c = 0
+   \/ s_seed_len c = 0 \/ s_interface_empty c = true) ->
+  is_valid_config c <> VOk true.
+Proof.
+  intros c Hbad Hv. apply valid_config_iff in Hv. unfold config_ok in Hv.
+  repeat (apply andb_true_iff in Hv; destruct Hv as [Hv ?]).
+  unfold SEED_LEN in *.
+  destruct Hbad as [E|[E|[E|[E|[E|[E|E]]]]]]; try lia; try (destruct (s_kms c); lia);
+    try (rewrite E in *; discriminate).
+Qed.
